@@ -6,7 +6,7 @@ L == { Leaf(l) : l \in {"O", "T", "B", "Bs"} }
 \* what the attribute accepts was measured on the pinned tree (DESIGN Appendix G)
 OL == { Leaf("O"), Leaf("T") }
 BL == { Leaf("B"), Leaf("Bs") }
-Depth0 == L \cup { Leaf("S") }
+Depth0 == L \cup { Leaf("S"), Leaf("Bl") }
 Depth1 == { Opt(x) : x \in L \cup {Leaf("S")} } \cup { Vec(x) : x \in L } \cup { Poll(x) : x \in OL }
           \cup { Res(a, b) : a \in L, b \in OL }
           \cup { Tup(<<a, b>>) : a \in {Leaf("B"), Leaf("O")}, b \in {Leaf("Bs"), Leaf("O"), Leaf("T")} }
@@ -14,12 +14,13 @@ Depth1 == { Opt(x) : x \in L \cup {Leaf("S")} } \cup { Vec(x) : x \in L } \cup {
 Depth2B == { Opt(Opt(b)) : b \in BL } \cup { Opt(Res(b, e)) : b \in BL, e \in OL } \cup { Poll(Opt(Leaf("B"))) }
            \cup { Poll(Res(b, e)) : b \in BL, e \in OL } \cup { Vec(Opt(Leaf("B"))) } \cup { Vec(Res(Leaf("B"), e)) : e \in OL }
 Depth2O == { Opt(Vec(Leaf("O"))), Res(Opt(Leaf("O")), Leaf("O")), Vec(Tup(<<Leaf("O"), Leaf("O")>>)), Opt(Res(Leaf("T"), Leaf("O"))), Poll(Opt(Leaf("T"))) }
-TypesQ == Depth0 \cup { Opt(Leaf("B")), Opt(Leaf("O")), Opt(Leaf("T")), Opt(Leaf("S")), Vec(Leaf("B")), Vec(Leaf("O")), Poll(Leaf("O")),
+SliceTypes == { Opt(Leaf("Bl")), Res(Leaf("Bl"), Leaf("O")), Tup(<<Leaf("Bl"), Leaf("O")>>), Vec(Leaf("Bl")), Opt(Res(Leaf("Bl"), Leaf("T"))) }
+TypesQ == Depth0 \cup SliceTypes \cup { Opt(Leaf("B")), Opt(Leaf("O")), Opt(Leaf("T")), Opt(Leaf("S")), Vec(Leaf("B")), Vec(Leaf("O")), Poll(Leaf("O")),
                         Res(Leaf("B"), Leaf("O")), Res(Leaf("B"), Leaf("T")), Res(Leaf("O"), Leaf("T")), Res(Leaf("Bs"), Leaf("O")),
                         Tup(<<Leaf("B"), Leaf("O")>>), Tup(<<Leaf("B"), Leaf("T")>>), Tup(<<Leaf("O"), Leaf("O")>>), Tup(<<Leaf("B"), Leaf("O"), Leaf("Bs")>>),
                         Opt(Res(Leaf("B"), Leaf("T"))), Opt(Res(Leaf("Bs"), Leaf("O"))), Poll(Res(Leaf("B"), Leaf("O"))), Poll(Res(Leaf("B"), Leaf("T"))),
                         Vec(Res(Leaf("B"), Leaf("O"))), Vec(Opt(Leaf("B"))), Opt(Opt(Leaf("B"))), Poll(Opt(Leaf("B"))), Opt(Vec(Leaf("O"))) }
-TypesT == Depth0 \cup Depth1 \cup Depth2B \cup Depth2O
+TypesT == Depth0 \cup Depth1 \cup Depth2B \cup Depth2O \cup SliceTypes
 Paths == {"once", "multi"}
 CasesOf(ty) == UNION { { [ty |-> ty, path |-> p, v |-> v] : v \in Values(ty, MaxLen) } : p \in { q \in Paths : PathOK(ty, q) } }
 Cases == UNION { CasesOf(ty) : ty \in TypeFam }
